@@ -63,7 +63,7 @@ package gossip
 //@   ensures[meta] L.ID == old(L.ID) && L.Addr == old(L.Addr) && L.Left == old(L.Left) && L.Unreachable == old(L.Unreachable) && L.Expiry == old(L.Expiry)
 
 //@ contract (*clusterState).LeaveLocal
-//@   serves C17 C11 C02 C20
+//@   serves C17 C11 C02 C20 C18
 //@   let L = s.nodes[s.localID]
 //@   modifies L.NodeMetadata, entries(L.Entries)
 //@   ensures[left] L.Left
